@@ -256,7 +256,7 @@ impl Prop for C15 {
                 let form = if k % 2 == 0 { RowForm::Mixed(1) } else { RowForm::Cols };
                 let first = if other.unsigned() { Val::plain(Base::U8(1)) } else { Val::plain(Base::I8(-1)) };
                 let first = if matches!(single_write(&first, &other).0, Ok(Ok(_))) { first } else { Val { base: Base::U8(0), wrap: Wrap::None } };
-                let rows = vec![RowProg { cells: vec![first, Val::plain(base.clone())], form }];
+                let rows = vec![RowProg { cells: vec![first, Val::plain(base.clone())], form, offers: vec![] }];
                 let mut conv = Conversation::new(
                     vec![Cmd::Prepare { text: Blob::text("p") }, Cmd::Execute { id: 1, params: vec![], send_types: false, flags: 0, iterations: 1 }],
                     vec![
